@@ -4,7 +4,8 @@
 (*   kind 0  single-band selection (select_edfa for an Edfa element):           every clause                        *)
 (*   kind 1  selection for one band of a multiband amplifier:  CoversBand, RamanOnlyIfAllowed, MemberOfAdmittedGroup *)
 (*           (NF-minimality per band is not decided by the property once the group must fit all bands)              *)
-(*   kind 2  a completed multiband amplifier:       OneGroup, NamedGroupAdmitted, EveryMemberCoversItsBand          *)
+(*   kind 2  a completed multiband amplifier:       OneGroup, NamedGroupAdmitted, EveryMemberCoversItsBand,         *)
+(*                                                    GroupCapableIfPossible, NotDominatedByCapableGroup               *)
 (*   c       context  [g, p, ext, hasOwn, hasRdm, bfmin, bfmax, prevFiber, lossCoef, ramanLimit]   (0/1 flags)       *)
 (*   lib     the whole single-band library, each model with its limits, band (MHz), list memberships as the          *)
 (*           harness reads them from the element / ROADM / library, and nf = the implementation's own edfa_nf at g    *)
@@ -47,9 +48,20 @@ SelectionClauses(t) ==
 Groups(t) == {[idx |-> t.groups[k].idx, alw |-> B(t.groups[k].alw), listed |-> B(t.groups[k].listed),
                members |-> {t.groups[k].members[j] : j \in 1..Len(t.groups[k].members)}] : k \in 1..Len(t.groups)}
 
+\* the per-band selections of a completed multiband amplifier (empty when not every band model was auto-selected)
+SelCtx(c) == [g |-> c.g, p |-> c.p, ext |-> c.ext, hasOwn |-> B(c.hasOwn), hasRdm |-> B(c.hasRdm), bfmin |-> c.bfmin,
+              bfmax |-> c.bfmax, prevFiber |-> B(c.prevFiber), lossCoef |-> c.lossCoef, ramanLimit |-> c.ramanLimit]
+Sels(t) == {LET lib == {Model(t.sels[k].lib[j]) : j \in 1..Len(t.sels[k].lib)}
+            IN [c |-> SelCtx(t.sels[k].c), lib |-> lib, x |-> CHOOSE a \in lib : a.id = t.sels[k].chosen] :
+               k \in 1..Len(t.sels)}
+
 GroupClauses(t) ==
     LET chosen == {t.members[k] : k \in 1..Len(t.members)}
     IN (IF OneGroupAt(Groups(t), B(t.hasList), t.ptype, chosen) THEN {} ELSE {"OneGroup"})
+         \cup (IF Len(t.sels) = 0 \/ GroupCapableIfPossibleAt(Groups(t), B(t.hasList), t.ptype, Sels(t), Margin)
+               THEN {} ELSE {"GroupCapableIfPossible"})
+         \cup (IF Len(t.sels) = 0 \/ NotDominatedByCapableGroupAt(Groups(t), B(t.hasList), t.ptype, Sels(t), Margin, TolNF)
+               THEN {} ELSE {"NotDominatedByCapableGroup"})
          \cup (IF NamedGroupAdmittedAt(Groups(t), B(t.hasList), t.ptype, t.named, chosen) THEN {} ELSE {"NamedGroupAdmitted"})
          \cup (IF EveryMemberCoversItsBandAt(chosen) THEN {} ELSE {"EveryMemberCoversItsBand"})
 
